@@ -815,7 +815,9 @@ fn many_refused_lines() -> Vec<&'static str> {
     static S: std::sync::OnceLock<Vec<String>> = std::sync::OnceLock::new();
     let v = S.get_or_init(|| {
         let mut v = vec!["stel a = 70001".to_string(), "stel t = \"tekst\"".to_string()];
-        for i in 0..65_600 {
+        // (interpreted by Miri, building 65 000 lines takes minutes per process; the session is not run there anyway)
+        let n = if std::env::var("NLV_FLAVOUR").map(|f| f == "miri").unwrap_or(false) { 30 } else { 65_600 };
+        for i in 0..n {
             v.push(match i % 3 {
                 0 => format!("{} + bestaatniet", 100_000 + i),
                 1 => format!("\"tekst {}\" + bestaatniet", i),
